@@ -48,6 +48,20 @@ def _helper_of(ctx, f: FuncInfo, call: ast.Call) -> FuncInfo | None:
     return h
 
 
+def _fold_guard_returns(body: list, parents: dict) -> list:
+    """[if c: return] + rest  ->  [if c: pass else: rest]   (only for a bare `return` as the whole guard body)."""
+    for i, st in enumerate(body):
+        if isinstance(st, ast.If) and not st.orelse and len(st.body) == 1 and isinstance(st.body[0], ast.Return) and st.body[0].value is None and i + 1 < len(body):
+            rest = _fold_guard_returns(body[i + 1 :], parents)
+            new_if = ast.copy_location(ast.If(test=st.test, body=[ast.copy_location(ast.Pass(), st.body[0])], orelse=rest), st)
+            if st in parents:
+                parents[new_if] = parents[st]
+            return body[:i] + [new_if]
+        if any(isinstance(n, ast.Return) for n in ast.walk(st)):
+            return body
+    return body
+
+
 def _call_in(st: ast.stmt):
     """(form, call, target) for the three recognised statement forms."""
     v = None
@@ -122,6 +136,9 @@ def inline(ctx, f: FuncInfo, want: Callable[[FuncInfo], bool] | None = None) -> 
         body = list(h.node.body)
         if body and isinstance(body[0], ast.Expr) and isinstance(body[0].value, ast.Constant):
             body = body[1:]
+        # leading early-return guards `if c: return` become `if c: pass / else: <rest>` (same test node, same order)
+        if form == "expr":
+            body = _fold_guard_returns(body, parents)
         # returns: only a final one for expr/assign forms
         rets = [n for s_ in body for n in ast.walk(s_) if isinstance(n, ast.Return)]
         final_ret = body[-1] if body and isinstance(body[-1], ast.Return) else None
